@@ -196,6 +196,22 @@ std::string runPotrf(Dense const& A){
 	int ix = fl.read();
 	Dense R = fromRemora(a);
 	std::ostringstream os; os << "ok" << ixs(ix) << " info=" << info;
+	{	// oracle for the return code: own unblocked Cholesky in long double on the stored triangle;
+		// expected = first k with pivot <= 0 (k+1), 0 if none. Skipped when a pivot is tiny but not exactly 0.
+		std::size_t n = A.r; std::vector<ld> L(n * n, 0); std::size_t expect = 0; bool ambiguous = false;
+		for(std::size_t j = 0; j != n && !expect; ++j){
+			for(std::size_t i = j; i != n; ++i){
+				ld s = Tri::is_upper ? A(j, i) : A(i, j), mag = std::fabs(s);
+				for(std::size_t k = 0; k != j; ++k){ s -= L[i * n + k] * L[j * n + k]; mag += std::fabs(L[i * n + k] * L[j * n + k]); }
+				if(i == j){
+					if(s != 0 && std::fabs(s) < 1e-9L * mag) ambiguous = true;
+					if(s <= 0){ expect = j + 1; break; }
+					L[j * n + j] = std::sqrt(s);
+				}else L[i * n + j] = s / L[j * n + j];
+			}
+		}
+		if(!ambiguous && expect != info) os << " !oracle potrf-info expected=" << expect;
+	}
 	if(info != 0) return os.str();
 	std::string out = os.str() + showVals(R);
 	// oracle: F F^T = A on the stored triangle (F = lower factor)
